@@ -27,47 +27,60 @@ BitAnd(x, y) == Join16(Hi16(x) & Hi16(y), Lo16(x) & Lo16(y))
 BitOr(x, y)  == Join16(Hi16(x) | Hi16(y), Lo16(x) | Lo16(y))
 BitXor(x, y) == Join16(Hi16(x) ^^ Hi16(y), Lo16(x) ^^ Lo16(y))
 
+(* C division truncates toward zero (6.5.5p6); TLA+ \div floors *)
+Abs(x) == IF x < 0 THEN 0 - x ELSE x
+TDiv(a, b) == IF (a < 0) = (b < 0) THEN Abs(a) \div Abs(b) ELSE 0 - (Abs(a) \div Abs(b))
+TMod(a, b) == a - b * TDiv(a, b)
+
+(* atomic_fetch_*: two conventions for the value the call yields.  "fadd" .. : the value before
+   the operation (C11 7.17.7.5).  "fadd_n" .. : the value after it (what include/stdatomic.h of
+   the pinned tree does by mapping the functions onto op=; recorded as a finding).            *)
+FetchOld == {"fadd", "fsub", "fand", "for", "fxor"}
+FetchNew == {"fadd_n", "fsub_n", "fand_n", "for_n", "fxor_n"}
+
 (* `old op v` of 6.5.16.2 after the integer promotions, converted back to the
    object's type (canonical form).  Shifts: 0 <= v < 8 and a non-negative
    left operand (anything else is outside the generated domain).            *)
 Arith(opk, w, sg, cur, v) ==
   LET a == AsLong(w, sg, cur) IN
-  Canon(w, CASE opk \in {"add", "fadd", "preinc", "postinc", "casinc", "lock"} -> a + v
-             [] opk \in {"sub", "fsub", "predec", "postdec"} -> a - v
+  Canon(w, CASE opk \in {"add", "fadd", "fadd_n", "preinc", "postinc", "casinc", "lock"} -> a + v
+             [] opk \in {"sub", "fsub", "fsub_n", "predec", "postdec"} -> a - v
              [] opk = "mul" -> a * v
-             [] opk \in {"and", "fand"} -> BitAnd(a, v)
-             [] opk \in {"or", "for"} -> BitOr(a, v)
-             [] opk \in {"xor", "fxor"} -> BitXor(a, v)
+             [] opk = "div" -> TDiv(a, v)
+             [] opk = "mod" -> TMod(a, v)
+             [] opk \in {"and", "fand", "fand_n"} -> BitAnd(a, v)
+             [] opk \in {"or", "for", "for_n"} -> BitOr(a, v)
+             [] opk \in {"xor", "fxor", "fxor_n"} -> BitXor(a, v)
              [] opk = "shl" -> a * Pow2(v)
              [] opk = "shr" -> a \div Pow2(v))
 
 (* One atomic operation: new object value and the value the C expression has
    (as a long).  v = operand, e = expected value (compare-exchange only).
    "cas": the generated function returns  expected' * 2 + result.
-   Operations whose value is not judged return 0 in the generated code.     *)
+   The CAS-loop increment and the spin-lock section return 0 in the generated code.   *)
 Sem(opk, w, sg, cur, v, e) ==
   CASE opk = "xchg" -> [mem |-> Canon(w, v), ret |-> AsLong(w, sg, cur)]
     [] opk = "cas"  -> IF cur = Canon(w, e)
                        THEN [mem |-> Canon(w, v), ret |-> AsLong(w, sg, Canon(w, e)) * 2 + 1]
                        ELSE [mem |-> cur,         ret |-> AsLong(w, sg, cur) * 2]
-    [] opk \in {"postinc", "postdec"} -> [mem |-> Arith(opk, w, sg, cur, v), ret |-> AsLong(w, sg, cur)]
-    [] opk \in {"fadd", "fsub", "fand", "for", "fxor", "casinc", "lock"} ->
+    [] opk \in {"postinc", "postdec"} \cup FetchOld -> [mem |-> Arith(opk, w, sg, cur, v), ret |-> AsLong(w, sg, cur)]
+    [] opk \in {"casinc", "lock"} ->
                        [mem |-> Arith(opk, w, sg, cur, v), ret |-> 0]
     [] OTHER -> LET n == Arith(opk, w, sg, cur, v) IN [mem |-> n, ret |-> AsLong(w, sg, n)]
 
 (* All outcomes of nt threads performing their operations, each atomically, in
    every order that respects program order: the set of
    [mem |-> final value, rets |-> <<results of thread 1, results of thread 2, ..>>].
-   ops[t][k] = [v |-> .., e |-> ..].                                         *)
-RECURSIVE LinFrom(_, _, _, _, _, _, _)
-LinFrom(opk, w, sg, ops, cur, idx, rets) ==
+   ops[t][k] = [opk |-> .., v |-> .., e |-> ..]  (threads may perform different operations).                                         *)
+RECURSIVE LinFrom(_, _, _, _, _, _)
+LinFrom(w, sg, ops, cur, idx, rets) ==
   LET ready == {t \in DOMAIN ops : idx[t] <= Len(ops[t])} IN
   IF ready = {} THEN {[mem |-> cur, rets |-> rets]}
   ELSE UNION { LET o == ops[t][idx[t]]
-                   r == Sem(opk, w, sg, cur, o.v, o.e)
-               IN LinFrom(opk, w, sg, ops, r.mem, [idx EXCEPT ![t] = @ + 1],
+                   r == Sem(o.opk, w, sg, cur, o.v, o.e)
+               IN LinFrom(w, sg, ops, r.mem, [idx EXCEPT ![t] = @ + 1],
                           [rets EXCEPT ![t] = Append(@, r.ret)])
              : t \in ready }
-Lin(opk, w, sg, ops, init) ==
-  LinFrom(opk, w, sg, ops, init, [t \in DOMAIN ops |-> 1], [t \in DOMAIN ops |-> <<>>])
+Lin(w, sg, ops, init) ==
+  LinFrom(w, sg, ops, init, [t \in DOMAIN ops |-> 1], [t \in DOMAIN ops |-> <<>>])
 =============================================================================
